@@ -40,11 +40,11 @@ def check(ctx):
               "the (component, sample) list returned by generate_random_samples changed: %s" % ast.unparse(r[0].value)[:160], r[0])
     ek = ctx.fn("random:UCSolutionEnumerator.extract_sequence_key")
     fact(ctx, R, ek, "recorded key", Facts(ek).returns(), ["tuple([_b0[0] for _b0 in solution_variabless])"], "recorded key = first component of every returned pair, in order")
-    ch = [s for s in statements(gr.node) if isinstance(s, ast.Assign) and dotted(s.targets[0]) == "choice"]
-    c0 = ast.unparse(ch[0].value).replace(" ", "") if ch else ""
-    ctx.check("random.randrange(0,self._preamble_solution_count)" in c0 and "tuple([self.random_components(self._components_shape,self.crossing_size,0)foriinrange(n)])" in c0 and
-              "self.random_components(self._leftover_components_shape,leftover,leftover)ifleftover>0else0" in c0, R, gr, "choice",
-              "a choice = (preamble index, n round components, leftover component or 0)", "the drawn choice changed shape")
+    chs = Facts(gr).assigns("choice")
+    want_ch = "(random.randrange(0, self._preamble_solution_count), tuple([self.random_components(self._components_shape, self.crossing_size, 0) for _b0 in range(n)]), " \
+              "ite((0 < leftover), self.random_components(self._leftover_components_shape, leftover, leftover), 0))"
+    ctx.check(len(chs) >= 1 and all(c == want_ch for c in chs), R, gr, "choice",
+              "a choice = (preamble index, n round components, leftover component or 0)", "the drawn choice changed shape: %s" % chs)
     comb = ctx.fn("random:RandomGen.__sample")
     F = Facts(comb)
     rounds = [l for l in F.iters() if l.startswith("range(0, ")]
